@@ -1,6 +1,6 @@
 SPECIFICATION Spec
 CONSTANTS
- Fam = "powT"
- P <- PThorough
+ Fams = {"ip"}
+ P <- PQuick
 INVARIANTS Theorems Emit
 CHECK_DEADLOCK FALSE
